@@ -92,3 +92,45 @@ def run_one(B, shim, wd, rq, bursts, exitcode=0, sig=0, pad=0, timeout=60, extra
         except OSError: pass
     shutil.rmtree(d, ignore_errors=True)
     return rec
+
+
+def run_request(B, shim, wd, tasks, timeout=90):
+    """one execution request with several VTODOs, run by ONE real echsx process (its main loop takes them in turn).
+    tasks: [{'L': limit s or 0, 'W': seconds the job sleeps, 'prep': bool (False: input file missing), 'spawn': bool (False: shell missing)}]
+    returns per task: started?, marker (job ran to its end)?, journal signal/exit, and echsx's own exit status"""
+    d = tempfile.mkdtemp(prefix='q', dir=wd)
+    L = ['BEGIN:VCALENDAR', 'VERSION:2.0']
+    for k, t in enumerate(tasks):
+        L += ['BEGIN:VTODO', 'UID:t%d' % k, 'SUMMARY:date +%%s.%%N > %s/start%d; sleep %d; date +%%s.%%N > %s/end%d' % (d, k, t['W'], d, k),
+              'X-ECHS-SETUID:%d' % os.getuid(), 'X-ECHS-SETGID:%d' % os.getgid(),
+              'X-ECHS-SHELL:' + ('/bin/sh' if t.get('spawn', True) else '/nonexistent/sh'), 'LOCATION:' + d]
+        if not t.get('prep', True): L.append('X-ECHS-IFILE:%s/missing-input' % d)
+        if t['L'] > 0: L.append('DURATION:PT%dS' % t['L'])
+        L += ['X-ECHS-UMASK:022', 'X-ECHS-MAIL-RUN:0', 'X-ECHS-MAIL-OUT:0', 'X-ECHS-MAIL-ERR:0', 'ORGANIZER:echse', 'END:VTODO']
+    L += ['END:VCALENDAR', '']
+    env = dict(os.environ, XSHIM_DIR=d, XSHIM_MAILER=MAILER, LD_PRELOAD=shim)
+    t0 = time.time()
+    try:
+        p = subprocess.run([f'{B}/echsx', '-v'], input='\n'.join(L), capture_output=True, text=True, timeout=timeout, env=env, start_new_session=True)
+        rc, jr = p.returncode, p.stdout
+    except subprocess.TimeoutExpired:
+        rc, jr = -99, ''
+    # jobs orphaned by a dead executor may still be sleeping: give them the time to leave their marker
+    time.sleep(max([t['W'] for t in tasks]) + 0.5 if rc not in (0,) else 0)
+    res = []
+    js = {}
+    for blk in re.findall(r'BEGIN:(?:VTODO|VJOURNAL)\n(.*?)END:(?:VTODO|VJOURNAL)\n', jr, re.S):
+        m = re.search(r'^UID:(t\d+)$', blk, re.M)
+        if m: js[m.group(1)] = blk
+    for k, t in enumerate(tasks):
+        def rd(fn):
+            try: return float(open(fn).read().strip())
+            except Exception: return None
+        s, e = rd(f'{d}/start{k}'), rd(f'{d}/end{k}')
+        j = js.get('t%d' % k)
+        ms = re.search(r'^X-SIGNAL:(\d+)', j or '', re.M); mx = re.search(r'^X-EXIT-STATUS:(\d+)', j or '', re.M)
+        mr = re.search(r'^X-REAL-TIME:(\d+)\.(\d{3})', j or '', re.M)
+        res.append({'jrealms': int(mr.group(1)) * 1000 + int(mr.group(2)) if mr else -1, 'started': s is not None, 'marker': e is not None, 'runms': int((e - s) * 1000) if (s is not None and e is not None) else -1,
+                    'journal': j is not None, 'jsig': int(ms.group(1)) if ms else 0, 'jexit': int(mx.group(1)) if mx else -1})
+    shutil.rmtree(d, ignore_errors=True)
+    return {'rc': rc, 'wallms': int((time.time() - t0) * 1000), 'tasks': res, 'journal_text': jr[-1500:] if rc != 0 else ''}
